@@ -14,7 +14,7 @@ RULE = (
     "tuple indexing, lambda / inner def with own default / comprehension constants, calls by bare name, module attribute, alias and functools.wraps wrapper, hidden dynamic calls "
     "through globals() and sys.modules; cycles allowed, recursion bounded by a decreasing argument) and a history of 1-5 edits (literal, nested-code constant, positional default, "
     "keyword-only default, set/tuple member, variable rebinding, in-place list/dict mutation, call-edge retarget, hide/unhide a call, explicit version bump), each delivered by restart "
-    "(fresh forked process importing the edited files against the same persistent store) or in-process (re-executing the definition as a cell / rebinding / mutating in the running process). "
+    "(fresh forked process importing the edited files against the same persistent store) or in-process (re-executing the definition as a notebook cell, or overwriting the source file and re-executing the definition from it at its own line, / rebinding / mutating in the running process). "
     "After every edition all automatically-versioned memento functions are called twice with two arguments (directly, through partial() or force_local(), or through two or three chained modifiers). Oracle: the same edition "
     "(same files and same cell sequence) executed in a fresh process with the decorator replaced by the identity. A memoized call must return the reference value or raise "
     "UndeclaredDependencyError. Non-trivial = at least one applied edit changes the reference result of a root memoized before it; distinct by (program, history)."
@@ -65,7 +65,7 @@ def _segments(case):
             skipped += 1
             continue
         delivery = h["delivery"]
-        if delivery == "inproc" and any(d["k"] in ("alias", "wrapper") and d["target"] in info["cells"] for d in p2["defs"]):
+        if delivery in ("inproc", "inprocfile") and any(d["k"] in ("alias", "wrapper") and d["target"] in info["cells"] for d in p2["defs"]):
             # re-executing the definition of a function that has an alias/wrapper leaves two live editions of
             # "the same" function in the process (the alias keeps the old object); such an edit is delivered by restart
             delivery = "restart"
@@ -108,10 +108,20 @@ def execute(case, scratch):
             base_prog = editions[seg[0]][0]
             pkgroot = os.path.join(d, "seg%d" % si)
             progrun.write_files(pkgroot, progs.render_files(base_prog))
-            steps = [{}] + [{"cells": _cells(editions[i][0], editions[i][1])} for i in seg[1:]]
+            steps = [{}]
+            for i in seg[1:]:
+                prog_i, info_i = editions[i]
+                if info_i.get("delivery") == "inprocfile" and not info_i.get("stmt"):
+                    # the source files are overwritten with the edited text and the touched definitions re-executed from them
+                    steps.append({"cells": [], "files": progs.render_files(prog_i),
+                                  "redef": [[progs.find(prog_i, n)["mod"], n] for n in info_i["cells"]]})
+                else:
+                    steps.append({"cells": _cells(prog_i, info_i)})
             spec = {"pkgroot": pkgroot, "pkg": base_prog["pkg"], "modules": base_prog["modules"], "store": store,
                     "steps": steps, "roots": roots, "args": case.get("args", [1, 2]), "repeat": 2}
             mem_steps += proc.forkrun(progrun.run_segment, dict(spec, identity=False))
+            # (an in-process step may have overwritten the source files: the reference run starts from the same text)
+            progrun.write_files(pkgroot, progs.render_files(base_prog))
             ref_steps += proc.forkrun(progrun.run_segment, dict(spec, identity=True), env={"VERIF_RT_IDENTITY": "1"})
         changed_memoized = False
         kinds_since = []
@@ -180,13 +190,13 @@ def replay(case, ctx):
 def strategy(thorough):
     from hypothesis import strategies as st
     hist = st.lists(st.builds(lambda e, dl: {"edit": e, "delivery": dl}, progs.edit_strategy(),
-                              st.sampled_from(["restart", "inproc", "inproc"])), min_size=1, max_size=5 if thorough else 3)
+                              st.sampled_from(["restart", "inproc", "inproc", "inprocfile"])), min_size=1, max_size=5 if thorough else 3)
     # correlated pair: make a function refer to something new, then edit that something
     ed = progs.edit_strategy()
     pair = st.builds(
         lambda e1, k1, e2, d1, d2, pre: pre + [{"edit": dict(e1, kind=k1), "delivery": d1}, {"edit": dict(e2, kind="follow"), "delivery": d2}],
-        ed, st.sampled_from(["addglob", "retarget"]), ed, st.sampled_from(["inproc", "inproc", "restart"]),
-        st.sampled_from(["inproc", "inproc", "restart"]),
+        ed, st.sampled_from(["addglob", "retarget"]), ed, st.sampled_from(["inproc", "inprocfile", "restart"]),
+        st.sampled_from(["inproc", "inprocfile", "restart"]),
         st.lists(st.builds(lambda e, dl: {"edit": e, "delivery": dl}, ed, st.sampled_from(["restart", "inproc"])), max_size=1))
     hist = st.integers(0, 2).flatmap(lambda i: pair if i == 0 else hist)
     pres = st.sampled_from(["direct", "direct", "direct", "partial", "force_local", "partial+force_local", "ctx+partial", "force_local+ignore+partial"])
@@ -198,8 +208,15 @@ def strategy(thorough):
                                st.sampled_from(["restart", "inproc"])), min_size=1, max_size=3)
     heavy = st.builds(lambda p, h, pres: {"program": p, "history": h, "pres": pres, "args": [1, 2]},
                       progs.program_strategy(max_fns=3, value_heavy=True, allow_hidden=False), vhist, pres)
-    # (one_of de-duplicates identical branches, so the 1:4 mix is drawn explicitly)
-    return st.integers(0, 4).flatmap(lambda i: heavy if i == 0 else general)
+    # helper-heavy programs: one memento root over two plain helpers whose results depend on their default values; the
+    # history edits only the helpers (defaults, literals, nested constants), delivered in every way
+    hhist = st.lists(st.builds(lambda e, k, t, dl: {"edit": dict(e, kind=k, target=t), "delivery": dl}, ed,
+                               st.sampled_from(["pdef", "pdef", "kwdef", "lit", "nested"]), st.sampled_from(["f1", "f2"]),
+                               st.sampled_from(["restart", "inproc", "inprocfile", "inprocfile"])), min_size=1, max_size=3)
+    helpers = st.builds(lambda p, h, pres: {"program": p, "history": h, "pres": pres, "args": [1, 2]},
+                        progs.program_strategy(max_fns=3, helper_heavy=True, allow_hidden=False, allow_alias=False, allow_explicit=False), hhist, pres)
+    # (one_of de-duplicates identical branches, so the mix is drawn explicitly)
+    return st.integers(0, 9).flatmap(lambda i: heavy if i < 2 else (helpers if i == 2 else general))
 
 
 def run_shard(ctx):
